@@ -126,6 +126,13 @@ CHECKS.update({
             "deterministic simulation: exhaustive enumeration of run-outcome (fault) sequences to a bound against the real command loop", "§5 C32"),
 })
 
+CHECKS.update({
+    "C19": ("G (rtrnet): the real rtr_listener on loopback sockets in a current-thread tokio runtime", "exploration",
+            "Sequences of 3-10 RTR client connections with a seeded subset failing per-connection setup (injected failure of the keepalive socket option), keepalive on/off, per-client metrics on/off; every connection whose setup was not failed must receive a Cache Response to its Reset Query within a generous wall-clock bound.",
+            "The one engine with real (loopback) sockets because rtr_listener is hard-wired to tokio TCP: outcome-deterministic, timing is not; the bound only elapses on a violation.",
+            "simulation with injected system-call failures on loopback sockets, bounded liveness", "§5 C19"),
+})
+
 NOT_APPLICABLE = {
     "C11": "pure function of two data sets: no schedule, clock, fault, crash point or peer can change its outcome (DESIGN §5)",
     "C18": "serialiser: pure function of (change set, session, serials); no simulated dimension influences it",
